@@ -1,6 +1,6 @@
 CONSTANTS
   MaxLen = 4
-  MaxVal = 3
+  MaxVal = 2
   Export = TRUE
   TableVariant = 1
 INIT Init
